@@ -50,6 +50,31 @@ fn main() {
                 }
             }
         }
+        "bench" => {
+            // bsvmc bench <ID> <tier> <space> <lo> <hi> <step>: single-threaded timing of slices of a space (development aid)
+            let id = args[2].to_uppercase();
+            let tier = if args[3] == "thorough" { Tier::Thorough } else { Tier::Quick };
+            let p = props::lookup(&id).unwrap();
+            let sp = (p.spaces.unwrap())(tier).into_iter().find(|s| s.name == args[4]).unwrap();
+            let (lo, hi, step): (u64, u64, u64) = (args[5].parse().unwrap(), args[6].parse::<u64>().unwrap().min(sp.size), args[7].parse().unwrap());
+            let mut i = lo;
+            while i < hi {
+                let t0 = std::time::Instant::now();
+                let mut acc = engine::Acc::new();
+                let end = (i + step).min(hi);
+                for k in i..end {
+                    let c = props::Case { space: &sp.name, idx: k, tier };
+                    (sp.eval)(&c, &mut acc);
+                }
+                let dt = t0.elapsed().as_secs_f64();
+                if dt > 0.2 {
+                    out::line(&format!("{}..{}: {:.2}s evals={} viol_keys={}", i, end, dt, acc.evaluations, acc.violations.len()));
+                }
+                i = end;
+            }
+            out::line(&format!("space size {}", sp.size));
+            std::process::exit(0)
+        }
         "refdump" => {
             for l in refs::refdump() {
                 out::line(&l);
